@@ -453,6 +453,21 @@ class SizeofT(E):
     def __init__(self, ty): self.ty = ty
 
 
+def subst_vars(e, env):
+    """Copy of expression `e` with every `Var` whose name is a key of `env` replaced by env[name] (copy propagation of
+    single-assignment temporaries)."""
+    if isinstance(e, Var):
+        return env.get(e.n, e)
+    if isinstance(e, list):
+        return [subst_vars(x, env) for x in e]
+    if isinstance(e, E):
+        c = object.__new__(type(e))
+        for k, v in e.__dict__.items():
+            c.__dict__[k] = subst_vars(v, env) if isinstance(v, (E, list)) else v
+        return c
+    return e
+
+
 TYPE_NAMES = {"U8": "u8", "I8": "i8", "U16": "u16", "I16": "i16", "U32": "u32", "I32": "i32",
               "U64": "u64", "I64": "i64", "F32": "f32", "F64": "f64",
               # lower-case f32 appears in one TRUNC_SAT instantiation as an unused type argument
